@@ -1,0 +1,30 @@
+//go:build verif
+
+package parse
+
+import "strings"
+
+// Verification hook for property C01/C02 (add-only, built only with -tags
+// verif): the index of the parse error variable with the given message.
+var verifErrors = []error{
+	errShouldBeForm, errBadRedirSign, errShouldBeFD, errShouldBeFilename,
+	errShouldBeArray, errStringUnterminated, errInvalidEscape, errInvalidEscapeOct,
+	errInvalidEscapeOctOverflow, errInvalidEscapeHex, errInvalidEscapeControl,
+	errShouldBePrimary, errShouldBeVariableName, errShouldBeRBracket, errShouldBeRBrace,
+	errShouldBeBraceSepOrRBracket, errShouldBeRParen, errShouldBeCompound, errShouldBePipe,
+	errBothElementsAndPairs, errShouldBeNewline,
+}
+
+// VerifErrorCode maps a parse error message to the index of its error
+// variable; 21 is the "unexpected rune" error of parser.done, 99 is unknown.
+func VerifErrorCode(msg string) int {
+	for i, e := range verifErrors {
+		if e.Error() == msg {
+			return i
+		}
+	}
+	if strings.HasPrefix(msg, "unexpected rune") {
+		return 21
+	}
+	return 99
+}
